@@ -5,6 +5,12 @@ HERE = os.path.dirname(os.path.abspath(__file__))
 TB = ("Lean 4.33.0 kernel (axioms: propext, Classical.choice, Quot.sound only; audited per theorem); "
       "hand-written Lean model tied to the code by an in-process differential correspondence run (go build -overlay harness) on every run; ")
 CHECKS = {
+ "C03": dict(text="PARTIAL. Proved (Lean, any number of workers, every interleaving): the wait/error protocol of lintWithRegoRules has no deadlock, a returned report contains every file's merge, an evaluation error is never dropped (select_no_lost_error, proto_complete, proto_no_deadlock, proto_progress; lost_error_witness for the code before its repair), tied by go/ast facts and the forced lost-error schedule. Pinned: the inventory of places in the bundle where OPA can raise a runtime conflict. NOT proved, only sampled (evidence.assumption_sampling): that no rule errors, panics or hangs on a parseable module (Env.Total) — all rules over repository, OPA-conformance and generated modules, alone and in batches.",
+             note=TB + "Env.Total is a hypothesis about ~95 Rego rules x OPA's evaluator: sampling, not proof", ref="5/C03",
+             technique="Lean 4 proof of the protocol model + fact extraction; corpus sampling for the Env-side hypothesis"),
+ "C07": dict(text="PARTIAL. Proved (Lean): result.location / to_location_object keep a well-formed location (start, end, text = the reported line, file), ranged locations and the LSP range are ordered, and the routing kernel commutes with shifting a file down by k rows when the rule packages do (kernel_shift_equivariant, ignored_shift). Tied function-level through the real OPA. NOT proved, only sampled: every rule hands a well-formed node to the helpers and moves with the text — all rules over corpora: bounds, end >= start, text equality, and k in {1,3,10,100} blank-line shifts.",
+             note=TB + "per-rule well-formedness and parser equivariance are Env side: sampling; file-length and opa-fmt excluded from the shift oracle by definition", ref="5/C07",
+             technique="Lean 4 proof over the location/kernel model + differential correspondence; corpus sampling for the Env-side hypotheses"),
  "C11": dict(text="Lean theorems over the three text fixes (rune-indexed, as repaired): useAssign_spec / noWs_spec (the only possible change is the documented single-character insertion at the reported column, guarded by the character found there), fixAt_local / fixAt_guard (no other line, no change when the guard fails), closingQuote_spec (no index escapes the line), nonRaw_pattern_preserved (raw string has the value of the interpreted string for \\\\-only patterns), noWs_progress. Tie: exhaustive function-level runs of the real Fix methods vs the model; generated modules through the real Fixer with an OPA-AST oracle (parses; AST equal up to '=' -> ':='; comments equal up to one space).",
              note=TB + "that the reported column is the operator/comment/literal is the rules' (Env) business: sampled, not proved; OPA formatter trusted", ref="5/C11",
              technique="Lean 4 proof over text-fix models + exhaustive differential correspondence + AST-equality oracle"),
